@@ -330,6 +330,9 @@ pub fn worker_main(args: &[String]) -> i32 {
     }
     crate::install_crash_handler();
     sched::init();
+    if prop == "C02" {
+        return seq_worker(&tier, base, first, stride, count, print_fp);
+    }
     let known = load_known();
     let mut agg = Agg::default();
     let mut js = JudgeStats::default();
@@ -404,6 +407,76 @@ pub fn worker_main(args: &[String]) -> i32 {
     let _ = writeln!(o, "S {}", agg.to_json(true));
     let _ = writeln!(o, "P {}", agg.sched_fps.iter().map(|x| format!("{:x}", x)).collect::<Vec<_>>().join(","));
     let _ = o.flush();
+    code
+}
+
+fn seq_worker(tier: &str, base: u64, first: u64, stride: u64, count: u64, print_fp: bool) -> i32 {
+    let known = load_known();
+    let mut agg = Agg::default();
+    let t0 = Instant::now();
+    let out = std::io::stdout();
+    let mut code = 0;
+    let mut api: BTreeMap<String, u64> = BTreeMap::new();
+    for j in 0..count {
+        let index = first + j * stride;
+        let seed = run_seed(base, "C02", index);
+        CUR_INDEX.store(index, Ordering::Relaxed);
+        CUR_SEED.store(seed, Ordering::Relaxed);
+        let mut rng = Rng::new(seed);
+        let p = crate::seq::gen(&mut rng, tier == "thorough");
+        let o = crate::seq::execute(&p);
+        agg.runs += 1;
+        agg.clock += o.clock;
+        agg.ops += o.steps_done as u64;
+        agg.max_table = agg.max_table.max(o.max_table as u64);
+        agg.max_threads = 1;
+        let pj = p.to_json();
+        let mut fp = crate::rng::Fp::new();
+        for b in pj.to_string().bytes() {
+            fp.add(b as u64);
+        }
+        if p.ops.len() >= 3 {
+            agg.nontrivial += 1;
+            agg.sched_fps.insert(fp.0);
+        }
+        for op in &p.ops {
+            let name = op.to_json()[0].as_str().unwrap_or("").to_string();
+            *api.entry(format!("api_{}{}", if p.set { "set_" } else { "" }, name)).or_insert(0) += 1;
+        }
+        *api.entry(format!("hash_{}", p.hash.name().split(':').next().unwrap_or(""))).or_insert(0) += 1;
+        if agg.samples.is_empty() && p.ops.len() > 5 && p.ops.len() < 25 {
+            agg.samples.push(json!({"index": index, "run_seed": seed, "program": pj}));
+        }
+        if print_fp {
+            let mut o2 = out.lock();
+            let _ = writeln!(o2, "F {} {:016x} {:016x} {}", index, fp.0, o.failure.is_some() as u64, o.clock);
+        }
+        if let Some((step, detail)) = o.failure {
+            let v = Violation { class: "differs-from-reference".into(), detail: detail.clone() };
+            if let Some(k) = match_known(&known, "C02", &v) {
+                *agg.known.entry(format!("{}|{}|{}", k.class, k.needle, k.text)).or_insert(0) += 1;
+                continue;
+            }
+            let min = crate::seq::minimise(&p);
+            let mo = crate::seq::execute(&min);
+            let (min, detail) = match mo.failure {
+                Some((_, d)) => (min, d),
+                None => (p.clone(), detail),
+            };
+            let rj = json!({"format": "flurry-sim-seq-1", "property": "C02", "tier": tier, "index": index, "run_seed": seed, "class": "differs-from-reference",
+                "detail": detail, "failing_step_before_minimisation": step, "program": min.to_json()});
+            let mut o2 = out.lock();
+            let _ = writeln!(o2, "V {}", rj);
+            code = 1;
+            break;
+        }
+    }
+    agg.extra = api;
+    agg.wall_ms = t0.elapsed().as_millis() as u64;
+    let mut o2 = out.lock();
+    let _ = writeln!(o2, "S {}", agg.to_json(true));
+    let _ = writeln!(o2, "P {}", agg.sched_fps.iter().map(|x| format!("{:x}", x)).collect::<Vec<_>>().join(","));
+    let _ = o2.flush();
     code
 }
 
@@ -525,6 +598,45 @@ pub fn replay_main(args: &[String]) -> i32 {
             return 2;
         }
     };
+    if v.get("format").and_then(|x| x.as_str()) == Some("flurry-sim-c09-1") {
+        return crate::c09::replay(&v);
+    }
+    if v.get("format").and_then(|x| x.as_str()) == Some("flurry-sim-c14-1") {
+        let tier = v.get("tier").and_then(|x| x.as_str()).unwrap_or("quick").to_string();
+        let seed = v.get("seed").and_then(|x| x.as_u64()).unwrap_or(DEFAULT_SEED);
+        let (viol, _) = crate::c14::run(&tier, seed);
+        return match viol.first() {
+            Some(d) => {
+                println!("REPRODUCED property=C14 class=capacity-contract");
+                println!("{}", d);
+                1
+            }
+            None => {
+                println!("NOT-REPRODUCED property=C14");
+                0
+            }
+        };
+    }
+    if v.get("format").and_then(|x| x.as_str()) == Some("flurry-sim-seq-1") {
+        crate::install_crash_handler();
+        sched::init();
+        let Some(p) = v.get("program").and_then(crate::seq::SeqProgram::from_json) else {
+            eprintln!("bad sequential program");
+            return 2;
+        };
+        let o = crate::seq::execute(&p);
+        return match o.failure {
+            Some((step, d)) => {
+                println!("REPRODUCED property=C02 class=differs-from-reference step={}", step);
+                println!("{}", d);
+                1
+            }
+            None => {
+                println!("NOT-REPRODUCED property=C02");
+                0
+            }
+        };
+    }
     crate::install_crash_handler();
     sched::init();
     let prop = v.get("property").and_then(|x| x.as_str()).unwrap_or("").to_string();
@@ -875,6 +987,29 @@ pub fn check_main(args: &[String]) -> i32 {
     let workers = nworkers().min(total.max(1));
     println!("flurry-sim check {} {} seed={} runs={} workers={}", prop, tier, base, total, workers);
     let t0 = Instant::now();
+    let mut pre_extra: BTreeMap<String, u64> = BTreeMap::new();
+    let mut pre_samples: Vec<Value> = Vec::new();
+    let mut pre_violation: Option<Value> = None;
+    if prop == "C14" {
+        let (viol, st) = crate::c14::run(tier, base);
+        pre_extra.insert("single_client_capacities_checked".into(), st.capacities_checked);
+        pre_extra.insert("single_client_reserve_cases".into(), st.reserve_cases);
+        pre_extra.insert("single_client_sequences".into(), st.sequences);
+        pre_extra.insert("single_client_steps".into(), st.steps);
+        pre_extra.insert("single_client_growths_observed".into(), st.growths_seen);
+        pre_extra.insert("largest_table_single_client".into(), st.max_table);
+        pre_samples = st.samples.iter().map(|s| json!({"single_client_sequence": s})).collect();
+        println!("C14 single-client half: {} capacities, {} reserve cases, {} sequences / {} steps, {} violations", st.capacities_checked, st.reserve_cases, st.sequences, st.steps, viol.len());
+        let known = load_known();
+        for d in viol {
+            let v = Violation { class: "capacity-contract".into(), detail: d.clone() };
+            if let Some(k) = match_known(&known, prop, &v) {
+                println!("KNOWN-FINDING: property={} class={} {}", prop, k.class, k.text);
+            } else if pre_violation.is_none() {
+                pre_violation = Some(json!({"format": "flurry-sim-c14-1", "property": "C14", "tier": tier, "seed": base, "class": "capacity-contract", "detail": d, "run_seed": base, "index": 0}));
+            }
+        }
+    }
     let results = spawn_workers(prop, tier, base, total, workers, false);
     let wall = t0.elapsed().as_secs_f64();
     let mut agg = Agg::default();
@@ -908,6 +1043,15 @@ pub fn check_main(args: &[String]) -> i32 {
             eprintln!("worker exited with status {}", r.exit);
             harness_error = true;
         }
+    }
+    for (k, n) in &pre_extra {
+        agg.extra.insert(k.clone(), *n);
+    }
+    for sm in pre_samples {
+        agg.samples.push(sm);
+    }
+    if let Some(pv) = pre_violation {
+        violation = Some(pv);
     }
     let known = load_known();
     let mut known_lines = Vec::new();
@@ -954,7 +1098,8 @@ pub fn report_violation(prop: &str, v: Value) -> i32 {
     println!("violation candidate: class={} index={} run_seed={}", class, v["index"], v["run_seed"]);
     println!("{}", v["detail"].as_str().unwrap_or(""));
     let by_seed = v.get("by_seed").and_then(|x| x.as_bool()).unwrap_or(false);
-    let min = if by_seed || std::env::var("VERIF_NO_MINIMISE").is_ok() { v.clone() } else { minimise(v.clone(), 90) };
+    let is_seq = matches!(v.get("format").and_then(|x| x.as_str()), Some("flurry-sim-seq-1") | Some("flurry-sim-c14-1"));
+    let min = if by_seed || is_seq || std::env::var("VERIF_NO_MINIMISE").is_ok() { v.clone() } else { minimise(v.clone(), 90) };
     let _ = std::fs::write(format!("{}/{}-{}-{}-unminimised.json", dir, prop, class, v["run_seed"].as_u64().unwrap_or(0)), serde_json::to_string_pretty(&v).unwrap());
     let path = format!("{}/{}-{}-{}.json", dir, prop, class, v["run_seed"].as_u64().unwrap_or(0));
     std::fs::write(&path, serde_json::to_string_pretty(&min).unwrap()).expect("write replay");
